@@ -6,6 +6,8 @@ package main
 import (
 	"bytes"
 	"fmt"
+	"os"
+	"path/filepath"
 	"sort"
 	"strings"
 	"unicode/utf8"
@@ -98,6 +100,9 @@ type c02History struct {
 	LE    string    `json:"line_ends"`
 	Init  []string  `json:"initial"`
 	Steps []c02Step `json:"steps"`
+	// the last document lives in a second workspace folder (next to the first), which the history removes from the workspace and
+	// adds again (op "folder") while the document stays open
+	Second bool `json:"second_folder,omitempty"`
 }
 
 // pick an addressable offset, biased towards interesting places
@@ -143,8 +148,15 @@ func c02GenHistory(r *Rng) c02History {
 		open[i] = true
 	}
 	nsteps := r.Range(1, 30)
+	h.Second = ndocs == 2 && r.Fork(0x666f6c64).Bool()
+	folderIn := true
 	for s := 0; s < nsteps; s++ {
 		d := r.Intn(ndocs)
+		if h.Second && r.Fork(uint64(0x666f6c65+s)).Chance(1, 6) {
+			folderIn = !folderIn
+			h.Steps = append(h.Steps, c02Step{Op: "folder", Doc: ndocs - 1, Text: map[bool]string{true: "add", false: "remove"}[folderIn]})
+			continue
+		}
 		if !open[d] {
 			txt := c02GenDoc(r, h.Alpha, h.LE)
 			h.Steps = append(h.Steps, c02Step{Op: "open", Doc: d, Text: txt})
@@ -308,7 +320,8 @@ func runC02(c *Ctx) {
 		var srv *Server
 		start := func() bool {
 			var err error
-			srv, err = StartServer(ServerOpts{Root: ws.Root, Tag: fmt.Sprintf("c02w%d", w)})
+			os.MkdirAll(filepath.Join(filepath.Dir(ws.Root), "second"), 0o755)
+			srv, err = StartServer(ServerOpts{Root: ws.Root, Folders: []string{ws.Root, filepath.Join(filepath.Dir(ws.Root), "second")}, Tag: fmt.Sprintf("c02w%d", w)})
 			if err != nil {
 				c.Inconclusive("cannot start server: " + err.Error())
 				return false
@@ -343,8 +356,27 @@ func c02RunHistory(c *Ctx, srv *Server, ws *Workspace, idx int, h c02History) bo
 	open := make([]bool, n)
 	uris := make([]string, n)
 	version := 1
+	relOf := func(i int) string {
+		if h.Second && i == n-1 {
+			return fmt.Sprintf("../second/h%d_d%d.lua", idx, i)
+		}
+		return fmt.Sprintf("h%d_d%d.lua", idx, i)
+	}
+	secondURI := fileURI(filepath.Join(filepath.Dir(ws.Root), "second"))
+	folderIn := true
+	folderEvent := func(add bool) {
+		f := []interface{}{map[string]interface{}{"uri": secondURI, "name": "second"}}
+		ev := map[string]interface{}{"added": []interface{}{}, "removed": []interface{}{}}
+		if add {
+			ev["added"] = f
+		} else {
+			ev["removed"] = f
+		}
+		srv.Notify("workspace/didChangeWorkspaceFolders", map[string]interface{}{"event": ev})
+		folderIn = add
+	}
 	for i := 0; i < n; i++ {
-		rel := fmt.Sprintf("h%d_d%d.lua", idx, i)
+		rel := relOf(i)
 		ws.Write(rel, h.Init[i])
 		uris[i] = ws.URI(rel)
 		models[i] = NewRText(h.Init[i])
@@ -356,7 +388,10 @@ func c02RunHistory(c *Ctx, srv *Server, ws *Workspace, idx int, h c02History) bo
 			if open[i] {
 				srv.DidClose(uris[i])
 			}
-			ws.Delete(fmt.Sprintf("h%d_d%d.lua", idx, i))
+			ws.Delete(relOf(i))
+		}
+		if !folderIn {
+			folderEvent(true) // the next history finds both folders in the workspace
 		}
 	}()
 	check := func(step int, before [][]byte) bool {
@@ -425,7 +460,7 @@ func c02RunHistory(c *Ctx, srv *Server, ws *Workspace, idx int, h c02History) bo
 		d := st.Doc
 		switch st.Op {
 		case "open":
-			ws.Write(fmt.Sprintf("h%d_d%d.lua", idx, d), st.Text)
+			ws.Write(relOf(d), st.Text)
 			models[d] = NewRText(st.Text)
 			open[d] = true
 			srv.DidOpen(uris[d], st.Text)
@@ -447,7 +482,7 @@ func c02RunHistory(c *Ctx, srv *Server, ws *Workspace, idx int, h c02History) bo
 				disk = "\xef\xbb\xbf" + disk
 				c.Count("op_save_with_byte_order_mark_on_disk", 1)
 			}
-			ws.Write(fmt.Sprintf("h%d_d%d.lua", idx, d), disk)
+			ws.Write(relOf(d), disk)
 			srv.DidSave(uris[d], st.Text)
 			c.Count("op_save", 1)
 		case "query":
@@ -466,7 +501,7 @@ func c02RunHistory(c *Ctx, srv *Server, ws *Workspace, idx int, h c02History) bo
 			}
 			c.Count("op_query", 1)
 		case "deleted-on-disk":
-			rel := fmt.Sprintf("h%d_d%d.lua", idx, d)
+			rel := relOf(d)
 			ws.Delete(rel)
 			srv.Notify("workspace/didChangeWatchedFiles", map[string]interface{}{"changes": []interface{}{map[string]interface{}{"uri": uris[d], "type": 3}}})
 			c.Count("op_deleted_on_disk", 1)
@@ -478,6 +513,9 @@ func c02RunHistory(c *Ctx, srv *Server, ws *Workspace, idx int, h c02History) bo
 			}
 			srv.Notify("workspace/didChangeConfiguration", map[string]interface{}{"settings": map[string]interface{}{"luahelper": map[string]interface{}{"Warn": w, "base": map[string]interface{}{}}}})
 			c.Count("op_config", 1)
+		case "folder":
+			folderEvent(st.Text == "add")
+			c.Count("op_folder_"+st.Text, 1)
 		case "change":
 			version++
 			for _, ch := range st.Changes {
